@@ -121,6 +121,76 @@ func c04ParentOf(tm *Termer, t *Term) int {
 	return 0
 }
 
+// c04IsTail: the slice expression is x[k:] or x[k:len(x)] - it ends where x ends.
+func c04IsTail(sl *ssa.Slice) bool {
+	if sl.Max != nil {
+		return false
+	}
+	if sl.High == nil {
+		return true
+	}
+	c, isCall := sl.High.(*ssa.Call)
+	if !isCall || len(c.Call.Args) != 1 || c.Call.Args[0] != sl.X {
+		return false
+	}
+	b, isB := c.Call.Value.(*ssa.Builtin)
+	return isB && b.Name() == "len"
+}
+
+// c04RestList: v is one parent's gene list or a tail of it: every value v can stand for is reached from loads of
+// <parent>.Genes through phis and through x[k:] / x[k:len(x)] of such a value (no other upper bound, no capacity: the result ends where
+// x ends, so its elements are elements of x; with an upper bound the result could reach past len(x) into the spare
+// capacity). Returned: 1 the receiver's list, 2 the other parent's, 3 either, 0 not such a list.
+func (s *mateShape) c04RestList(v ssa.Value) int {
+	which, ok := 0, true
+	seen := map[ssa.Value]bool{}
+	var visit func(x ssa.Value)
+	visit = func(x ssa.Value) {
+		x = stripCT(x)
+		if seen[x] || !ok {
+			return
+		}
+		seen[x] = true
+		switch y := x.(type) {
+		case *ssa.Phi:
+			for _, e := range y.Edges {
+				visit(e)
+			}
+			return
+		case *ssa.Slice:
+			if _, isSl := y.X.Type().Underlying().(*types.Slice); isSl && c04IsTail(y) {
+				visit(y.X)
+				return
+			}
+			ok = false
+			return
+		}
+		alts := s.tm.Of(x).Alternatives()
+		if len(alts) == 0 {
+			ok = false
+		}
+		for _, a := range alts {
+			w := 0
+			if a.Op == "field" && a.Name == "Genes" && len(a.Args) > 0 {
+				w = c04ParentOf(s.tm, a.Args[0])
+			}
+			switch {
+			case w == 0:
+				ok = false
+			case which == 0:
+				which = w
+			case which != w:
+				which = 3
+			}
+		}
+	}
+	visit(v)
+	if !ok {
+		return 0
+	}
+	return which
+}
+
 // c04RoleTest evaluates a boolean value that is a test of the role of node `src` for a node whose NeuronType is the
 // constant `role`: comparisons of src.NeuronType with a role constant, src.IsSensor(), negations, and - resolved along
 // the path - the boolean phis that named booleans and && / || compile to. known is false when v is anything else.
@@ -975,16 +1045,51 @@ func (r *Run) c04Lookup(s *mateShape, end string, w *phiWebT, copies []*ssa.Call
 			return false
 		}
 		L := InnermostLoop(s.loops, ld.Block())
+		// the loads of the list element that the search's id tests speak about: f itself when it is loaded inside the search
+		els, elIdx := map[ssa.Value]bool{f: true}, ia.Index
+		if L == nil || L == s.walk {
+			// The search handed out the POSITION of the match and the element is re-read there after the search
+			// (`pos := -1; for i := range list { if list[i].Id == id { pos = i; break } }; if pos >= 0 { found = list[pos] }`,
+			// what slices.IndexFunc expands to). elemAtMatchedIndex established that the position read at f can only be the
+			// search's own index on the iteration on which it was left, over the same list value; the search loop is then the
+			// loop around the in-search loads of list[index], and everything below is decided for that loop as before.
+			if _, recs, okM := elemAtMatchedIndex(f); okM {
+				var L2 *Loop
+				var idx2 ssa.Value
+				same := true
+				for rec := range recs {
+					l := InnermostLoop(s.loops, rec.(*ssa.UnOp).Block())
+					i2 := stripCT(rec.(*ssa.UnOp).X.(*ssa.IndexAddr).Index)
+					if L2 == nil {
+						L2, idx2 = l, i2
+					} else if l != L2 || i2 != idx2 {
+						same = false
+					}
+				}
+				if same && L2 != nil && L2 != s.walk && s.walk.Blocks[L2.Header] && L2.Header.Dominates(ld.Block()) {
+					L, els, elIdx = L2, recs, idx2
+				}
+			}
+		}
 		if L == nil || L == s.walk {
 			why = "the child's node is not found by a search loop"
 			return false
 		}
+		isEl := func(v ssa.Value) bool { return v == f || els[v] }
 		idx := c04LoopBound(tm, L, func(t *Term) bool { return fieldChainOnWeb(t, ia.X) })
-		if idx == nil || idx != ia.Index || !c04FromZeroByOne(L, idx) {
+		if idx == nil || idx != elIdx || !c04FromZeroByOne(L, idx) {
 			why = "the search loop does not visit every index of the child's node list"
 			return false
 		}
-		isElemId := func(v ssa.Value) bool { return fieldChainOn(tm.Of(v), f, "Id") }
+		isElemId := func(v ssa.Value) bool {
+			t := tm.Of(v)
+			for e := range els {
+				if fieldChainOn(t, e, "Id") {
+					return true
+				}
+			}
+			return false
+		}
 		isWantedId := func(v ssa.Value) bool { return fieldChainOnWeb(tm.Of(v), s.chosen, "Link", end, "Id") }
 		matched := func(gs []Guard) int {
 			for _, g := range gs {
@@ -1009,7 +1114,7 @@ func (r *Run) c04Lookup(s *mateShape, end string, w *phiWebT, copies []*ssa.Call
 				rec := false
 				for _, T := range HeaderPhis(L) {
 					for i, pr := range L.Header.Preds {
-						if pr == lt && T.Edges[i] == f && w.Phis[T] {
+						if pr == lt && isEl(T.Edges[i]) && w.Phis[T] {
 							rec, carried[T] = true, true
 						}
 					}
@@ -1045,6 +1150,87 @@ func (r *Run) c04Lookup(s *mateShape, end string, w *phiWebT, copies []*ssa.Call
 		if edgeDominates(L.Header, hs, C) {
 			return true
 		}
+		// exhaustedAt: the branch outcomes gs say that the search ran to its end - through the position it hands out. A
+		// position variable Q (a phi) is compared with a constant in gs; every incoming edge of Q either carries the search
+		// index (0, 1, 2, ..: never negative, see c04FromZeroByOne above) and the facts admit no value >= 0, or carries a
+		// constant that the facts rule out, or is taken only after the search's exhaustion exit (`pos := -1` kept when no
+		// element matched, then `pos < 0` / `!(pos >= 0)` / `pos == -1`).
+		exhaustedAt := func(gs []Guard) bool {
+			type fact struct {
+				op token.Token
+				k  int64
+			}
+			facts := map[*ssa.Phi][]fact{}
+			for _, g := range gs {
+				x, y, op, isCmp := CmpFact(g.Cond, g.True)
+				if !isCmp {
+					continue
+				}
+				Q, isPhi := stripCT(x).(*ssa.Phi)
+				k, isK := constInt(y)
+				if _, isC := y.(*ssa.Const); !isPhi || !isK || !isC {
+					continue
+				}
+				facts[Q] = append(facts[Q], fact{op, k})
+			}
+			admits := func(fs []fact, c int64) bool {
+				for _, fc := range fs {
+					ok := true
+					switch fc.op {
+					case token.EQL:
+						ok = c == fc.k
+					case token.NEQ:
+						ok = c != fc.k
+					case token.LSS:
+						ok = c < fc.k
+					case token.LEQ:
+						ok = c <= fc.k
+					case token.GTR:
+						ok = c > fc.k
+					case token.GEQ:
+						ok = c >= fc.k
+					}
+					if !ok {
+						return false
+					}
+				}
+				return true
+			}
+			for Q, fs := range facts {
+				// no value >= 0 satisfies the facts: some fact bounds the position below 0
+				negOnly := false
+				for _, fc := range fs {
+					if (fc.op == token.LSS && fc.k <= 0) || (fc.op == token.LEQ && fc.k < 0) || (fc.op == token.EQL && fc.k < 0) {
+						negOnly = true
+					}
+				}
+				ok := len(Q.Edges) > 0 && !L.Blocks[Q.Block()]
+				for i, e := range Q.Edges {
+					P := Q.Block().Preds[i]
+					afterEnd := (P == L.Header && Q.Block() == hs) || edgeDominates(L.Header, hs, P)
+					if k, isK := constInt(e); isK {
+						if _, isC := e.(*ssa.Const); !isC || (admits(fs, k) && !afterEnd) {
+							ok = false
+						}
+						continue
+					}
+					if stripCT(e) == idx {
+						if !negOnly {
+							ok = false
+						}
+						continue
+					}
+					ok = false
+				}
+				if ok {
+					return true
+				}
+			}
+			return false
+		}
+		if exhaustedAt(Guards(C)) {
+			return true
+		}
 		var nilOnlyWhenExhausted func(T *ssa.Phi, depth int) bool
 		nilOnlyWhenExhausted = func(T *ssa.Phi, depth int) bool {
 			if depth > 3 {
@@ -1054,7 +1240,7 @@ func (r *Run) c04Lookup(s *mateShape, end string, w *phiWebT, copies []*ssa.Call
 				// a variable carried round the search: nil on entry, and inside the loop only kept or set to the found node
 				for i, e := range T.Edges {
 					if L.Blocks[L.Header.Preds[i]] {
-						if e != ssa.Value(T) && e != f {
+						if e != ssa.Value(T) && !isEl(e) {
 							return false
 						}
 					} else if k, isK := e.(*ssa.Const); !isK || k.Value != nil {
@@ -1073,7 +1259,7 @@ func (r *Run) c04Lookup(s *mateShape, end string, w *phiWebT, copies []*ssa.Call
 					if x.Value != nil {
 						return false
 					}
-					if !(P == L.Header || edgeDominates(L.Header, hs, P)) {
+					if !(P == L.Header || edgeDominates(L.Header, hs, P) || exhaustedAt(condsAt(P, T.Block()))) {
 						return false
 					}
 				case *ssa.Phi:
@@ -1085,7 +1271,7 @@ func (r *Run) c04Lookup(s *mateShape, end string, w *phiWebT, copies []*ssa.Call
 						return false
 					}
 				default:
-					if e != f {
+					if !isEl(e) {
 						return false
 					}
 				}
